@@ -502,7 +502,14 @@ class C18(World):
 
                 def solve(self, *a_, **k_):
                     r = o_solve(self, *a_, **k_)
-                    calls.append(("solve", self, k_))
+                    try:  # the request as the method itself sees it, however the call site spells it (positional, keyword, defaults)
+                        import inspect
+                        ba = inspect.signature(o_solve).bind(self, *a_, **k_)
+                        ba.apply_defaults()
+                        seen = {k: v for k, v in ba.arguments.items() if k != "self"}
+                    except TypeError:
+                        seen = k_
+                    calls.append(("solve", self, seen))
                     return r
 
                 def build(self, *a_, **k_):
